@@ -417,18 +417,21 @@ def opDerive (hd : HD K P) (s : State K P) (sc : Scope) (acct acctChild b i : Na
           let sm2 := { sm1 with dou := if priv then sm1.dou else sm1.dou ++ [(idx, b, i)] }
           (bindH (putSM s1 sc sm2) h idx, .addr (infoOfKey o), [])
 
+def markKeySym (sc : Scope) (sd : ScopeDisk K P) (id : AddrId P) (desc : String) : Sym :=
+  match alookup sd.addrs id with
+  | some r => addrKeySym sc id r
+  | none => Sym.sha (.pubdata ("aid:" ++ desc))
+
+def markRows (sc : Scope) (keySym : Sym) (already : Bool) : List Row :=
+  if already then [] else [{ path := scPath sc "usedaddrs", key := keySym, val := .plain "0" }]
+
 /-- `MarkUsed` -/
 def opMarkUsed (s : State K P) (sc : Scope) (id : AddrId P) (desc : String) : State K P × Res K × List Row :=
   match getSM s sc, getSD s sc with
   | some sm, some sd =>
-    let keySym := match alookup sd.addrs id with
-      | some r => addrKeySym sc id r
-      | none => Sym.sha (.pubdata ("aid:" ++ desc))
-    let (sd', rows) :=
-      if sd.used.contains id then (sd, [])
-      else ({ sd with used := id :: sd.used }, [{ path := scPath sc "usedaddrs", key := keySym, val := .plain "0" : Row }])
-    let s1 := putSD s sc sd'
-    (putSM s1 sc { sm with addrs := aerase sm.addrs id }, .ok, rows)
+    let already := sd.used.contains id
+    let sd' := if already then sd else { sd with used := id :: sd.used }
+    (putSM (putSD s sc sd') sc { sm with addrs := aerase sm.addrs id }, .ok, markRows sc (markKeySym sc sd id desc) already)
   | _, _ => (s, .err .scopeNotFound, [])
 
 end AddrDerive
